@@ -3,9 +3,13 @@
    a total Gallina function into Ok | Err | Panic, and the theorems below exclude Panic) and the bound on
    the CAR section buffer. The third-party decoders (go-ipld-prime, refmt, x509, asn1, libp2p) and the Go
    runtime (stack limit, allocator) are exercised by the decoders engine in child processes under a
-   memory ceiling and a time limit, not proved. *)
+   memory ceiling and a time limit, not proved.
+   Memory clause, the part a theorem can carry: every decoder of the model returns a value whose [weight]
+   (one unit per node plus the bytes of every string, byte string, link and map key) is at most the length
+   of its input, and selector resolution returns at most the weight of the data it was given
+   (C09_*_no_larger_*, SizeProofs.v). That Go allocates in proportion to that weight is not modelled. *)
 From Coq Require Import String.
-Require Import Base Node Varint Did DidProofs Selector SelectorProofs SelParse SelParseProofs Policy PolicyProofs PolicyIpld PolicyIpldProofs Container ContainerProofs.
+Require Import Base Node Varint Did DidProofs Cbor Selector SelectorProofs SelParse SelParseProofs Policy PolicyProofs PolicyIpld PolicyIpldProofs Base64 Container ContainerProofs SizeProofs.
 Local Open Scope N_scope.
 
 Theorem C09_did_parser_never_panics : forall s, did_parse s <> Panic.
@@ -39,3 +43,41 @@ Print Assumptions C09_policy_matching_total.
 Theorem C09_car_section_buffer_bounded : forall s d r, ld_read s = Ok (Some (d, r)) -> N.of_nat (length d) <= max_section.
 Proof. exact ld_read_bounded. Qed.
 Print Assumptions C09_car_section_buffer_bounded.
+
+(* ---- output sizes: nothing a decoder of the model returns is larger than its input ---- *)
+Theorem C09_select_result_no_larger_than_data : forall sel n v, select sel n = Ok (Some v) -> (weight v <= weight n)%nat.
+Proof. exact select_result_no_larger_than_data. Qed.
+Print Assumptions C09_select_result_no_larger_than_data.
+
+Theorem C09_parsed_selector_no_larger_than_text : forall s p,
+  sel_parse s = Ok p -> (length p <= length s)%nat /\ length (sel_print p) = length s.
+Proof. exact parsed_selector_no_larger_than_text. Qed.
+Print Assumptions C09_parsed_selector_no_larger_than_text.
+
+Theorem C09_parsed_did_no_larger_than_text : forall s d, did_parse s = Ok d -> (length (snd d) <= length s)%nat.
+Proof. exact parsed_did_no_larger_than_text. Qed.
+Print Assumptions C09_parsed_did_no_larger_than_text.
+
+Theorem C09_decoded_policy_weighs_what_was_read : forall n p, pol_from_ipld n = Ok p -> weight (pol_to_ipld p) = weight n.
+Proof. exact decoded_policy_weighs_what_was_read. Qed.
+Print Assumptions C09_decoded_policy_weighs_what_was_read.
+
+(* the reference DAG-CBOR decoder: value and unread rest together never exceed the input *)
+Theorem C09_decoded_cbor_no_larger_than_bytes : forall f bs x r, dec f bs = Some (x, r) -> (weight x + length r <= length bs)%nat.
+Proof. exact decoded_cbor_no_larger_than_bytes. Qed.
+Print Assumptions C09_decoded_cbor_no_larger_than_bytes.
+
+Theorem C09_base64_decoding_no_larger_than_text : forall s b, b64_decode s = Ok b -> (length b <= length s)%nat.
+Proof. exact base64_decoding_no_larger_than_text. Qed.
+Print Assumptions C09_base64_decoding_no_larger_than_text.
+
+(* containers: the token bytes handed to the token decoder (plus one per token) never exceed the input *)
+Theorem C09_car_blocks_no_larger_than_input : forall mh_sum s blobs,
+  car_blobs mh_sum s = Ok blobs -> (length (concat blobs) + length blobs <= length s)%nat.
+Proof. exact car_blocks_no_larger_than_input. Qed.
+Print Assumptions C09_car_blocks_no_larger_than_input.
+
+Theorem C09_cbor_container_entries_no_larger_than_input : forall s blobs,
+  cbor_blobs s = Ok blobs -> (length (concat blobs) + length blobs <= length s)%nat.
+Proof. exact cbor_container_entries_no_larger_than_input. Qed.
+Print Assumptions C09_cbor_container_entries_no_larger_than_input.
